@@ -221,7 +221,7 @@ func execC13(p *sim.Plan, keep bool) *sim.Result {
 		case "add":
 			v := s.val()
 			n.sl.AddState(ad, []byte(key), v)
-			m.set(s.A, key, v, false)
+			m.set(s.A, key, v, true)
 			dirtySinceCommit = true
 			res.Log.Logf("%d add A%d %s=%x", i, s.A, key, v)
 		case "del":
